@@ -238,15 +238,32 @@ func (c *Canon) of(v ssa.Value) string {
 		c.phiStack = append(c.phiStack, x)
 		var parts []string
 		seen := map[string]bool{}
-		for _, e := range x.Edges {
-			s := c.Of(e)
+		add := func(s string) {
 			if !seen[s] {
 				seen[s] = true
 				parts = append(parts, s)
 			}
 		}
+		for _, e := range x.Edges {
+			// a merge of merges is one merge: how the control flow nests the alternatives is
+			// not part of the value (loop-carried inner merges keep their structure)
+			if inner, ok := e.(*ssa.Phi); ok {
+				if _, named := c.PhiName[inner]; !named && (c.PhiEdge == nil || c.PhiEdge[inner] == nil) {
+					if ps, ok := c.flatPhiParts(inner); ok {
+						for _, s := range ps {
+							add(s)
+						}
+						continue
+					}
+				}
+			}
+			add(c.Of(e))
+		}
 		c.phiStack = c.phiStack[:len(c.phiStack)-1]
 		sort.Strings(parts)
+		if len(parts) == 1 && !strings.Contains(parts[0], "@") {
+			return parts[0]
+		}
 		return "μ(" + strings.Join(parts, "|") + ")"
 	case *ssa.FieldAddr:
 		return "&" + c.fieldOf(x.X, x.Field)
@@ -349,6 +366,38 @@ func (c *Canon) fieldOf(base ssa.Value, idx int) string {
 		return baseStr + ".?"
 	}
 	return baseStr + "." + FieldLabel(st, idx)
+}
+
+// flatPhiParts returns the alternatives of a phi that is not loop-carried (none of its
+// alternatives refers back to a phi under construction), recursively flattened.
+func (c *Canon) flatPhiParts(x *ssa.Phi) ([]string, bool) {
+	for _, ph := range c.phiStack {
+		if ph == x {
+			return nil, false
+		}
+	}
+	if len(c.phiStack) >= 6 {
+		return nil, false
+	}
+	c.phiStack = append(c.phiStack, x)
+	defer func() { c.phiStack = c.phiStack[:len(c.phiStack)-1] }()
+	var out []string
+	for _, e := range x.Edges {
+		if inner, ok := e.(*ssa.Phi); ok {
+			if _, named := c.PhiName[inner]; !named && (c.PhiEdge == nil || c.PhiEdge[inner] == nil) {
+				if ps, ok := c.flatPhiParts(inner); ok {
+					out = append(out, ps...)
+					continue
+				}
+			}
+		}
+		s := c.Of(e)
+		if strings.Contains(s, "@") {
+			return nil, false
+		}
+		out = append(out, s)
+	}
+	return out, true
 }
 
 // elemOf renders an element access: a constant index is kept (s[0]), any other index is
